@@ -16,6 +16,8 @@ var (
 	long127 = strings.Repeat("x", 127)
 	long128 = strings.Repeat("y", 128)
 	long16k = strings.Repeat("z", 16384)
+	// a profile that deflates better than 200:1 (an inflate limit expressed as a ratio must not cut it short)
+	long64k = strings.Repeat("z", 65536)
 )
 
 // Base is the profile every deviation starts from: 1 mapping, 2 functions, 2
@@ -694,7 +696,7 @@ func Dims() []Dim {
 	}
 	add("comments", cm("nil", nil), cm("empty", []string{}), cm("[\"\"]", []string{""}), cm("dup", []string{"c1", "c1"}),
 		cm("3", []string{"a", "b", "c"}), cm("4", []string{"a", "", "c", "a"}), cm("nonutf8", []string{"\xff"}), cm("[\"\",\"\"]", []string{"", ""}),
-		cm("len16k", []string{long16k}))
+		cm("len16k", []string{long16k}), cm("len64k", []string{long64k}))
 	add("doc_url", strAlts(func(s *Spec) *string { return &s.DocURL }, "http://x", "\xff", "c1")...)
 	add("drop_frames", strAlts(func(s *Spec) *string { return &s.Drop }, "re.*", "\xff")...)
 	add("keep_frames", strAlts(func(s *Spec) *string { return &s.Keep }, "re.*", "f")...)
